@@ -161,6 +161,7 @@ static void party_main(World &W, const Scen &sc, const Group &G, Party &P, long 
 	P.rbc = new RBC(n, t, i, P.aiou2, aiounicast::aio_scheduler_roundrobin, T_RBC);
 	P.rbc->setID("c15");
 	P.aiou2->rbc = P.rbc; P.aiou->q = G.q; P.aiou2->q = G.q;
+	mpz_mul(P.aiou2->gh.v, G.g.v, G.h.v); mpz_mod(P.aiou2->gh.v, P.aiou2->gh.v, G.p.v);
 	const Dev *dv = sc.dev_of(i);
 	if (dv) { P.aiou->dev = *dv; P.aiou2->dev = *dv; }
 	mpz_srcptr p = G.p.v, q = G.q.v, g = G.g.v, h = G.h.v;
@@ -224,33 +225,57 @@ static std::string setstr(const std::vector<size_t> &v) { std::string s = "{"; f
 
 struct JointResult { bool have_x = false; Z x, xp; std::vector<size_t> H; };
 
-// Liveness inside the synchrony assumption: every unicast message is delivered within <= 3 virtual
-// seconds, so an honest party must never run into a time-out (30 s) while waiting for a message
-// of another honest party.  The library logs each such time-out ("receiving ... failed; complaint
-// against P_j", "no share received from P_j"); the last integer of the line is the sender.
-static bool scan_honest_timeouts(Verdicts &V, std::vector<Party *> &P, int ph) {
-	const Scen &sc = V.sc; bool found = false;
+// Liveness inside the synchrony assumption.  Every unicast message is delivered within <= 3 virtual
+// seconds and virtual time advances only when every party waits, so
+//  (a) an honest party must never run into a time-out (30 s) while waiting for a message of another
+//      honest party                                                   -> C15/honest-timeout
+//  (b) a message of a deviating party must be in time for all honest parties or for none: honest
+//      parties that decide differently fall a whole time-out apart   -> C15/split-timeout
+// The library logs each time-out ("receiving ... failed; complaint against P_j", "receiving who failed
+// from P_j", "no share received from P_j"); the last integer of the line is the sender.
+// Returns true if the run is not judged further (root cause reported, or recorded as beyond the bound).
+static bool scan_timeouts(Verdicts &V, std::vector<Party *> &P, int ph) {
+	const Scen &sc = V.sc;
+	std::vector<std::multiset<std::string>> on_faulty(sc.n);
+	std::vector<std::string> honest_line(sc.n); std::vector<long> honest_from(sc.n, -1);
 	for (auto p : P) {
 		if (sc.faulty(p->i)) continue;
 		std::istringstream in(p->err[ph].str()); std::string line;
+		std::string self = "P_" + std::to_string(p->i) + ": ";
 		while (std::getline(in, line)) {
 			bool rx = (line.find("receiving") != std::string::npos && line.find("failed") != std::string::npos) || line.find("no share received") != std::string::npos;
 			if (!rx) continue;
 			size_t e = line.find_last_of("0123456789"); if (e == std::string::npos) continue;
 			size_t b = e; while (b > 0 && isdigit((unsigned char)line[b - 1])) b--;
 			size_t from = (size_t)atol(line.substr(b, e - b + 1).c_str());
-			if (from >= sc.n || sc.faulty(from) || from == p->i) continue;
-			if (3 * sc.t >= sc.n) {
-				// the reliable broadcast is operated beyond its own bound t < n/3 (it needs 2t+1 >= n-... readys): a party
-				// that waits on its private links stalls it.  Documented resilience limit: recorded, not judged.
-				count(std::string("stall_beyond_rbc_bound.") + PNAME[sc.proto]); V.beyond_bound_stall = true; return true;
-			}
-			long rq = 0; for (auto q : P) if (q->aiou2) rq += q->aiou2->rreq[ph];
-			V.viol("honest-timeout", ph, "an honest party ran into a time-out waiting for a message of another honest party although every link delivers within 3 s", J().kv("party", (long long)p->i).kv("waiting_for", (long long)from).kv("log_line", line).kv("r_requests_sent_in_phase", rq));
-			found = true; break;
+			if (from >= sc.n || from == p->i) continue;
+			if (sc.faulty(from)) { std::string norm = line; size_t at = norm.find(self); if (at != std::string::npos) norm.erase(at, self.size()); on_faulty[p->i].insert(norm); }
+			else if (honest_from[p->i] < 0) { honest_from[p->i] = (long)from; honest_line[p->i] = line; }
 		}
 	}
-	return found;
+	// (b) split decisions about a deviating party's message (parties of equal role only: PVSS receivers)
+	std::vector<size_t> cmp; for (size_t i = 0; i < sc.n; i++) if (!sc.faulty(i) && !(sc.proto == P_PVSS && i == sc.dealer)) cmp.push_back(i);
+	for (size_t a = 1; a < cmp.size(); a++) {
+		if (on_faulty[cmp[a]] == on_faulty[cmp[0]]) continue;
+		std::string only;
+		for (auto &l : on_faulty[cmp[a]]) if (on_faulty[cmp[0]].count(l) != on_faulty[cmp[a]].count(l)) { only = l; break; }
+		if (only.empty()) for (auto &l : on_faulty[cmp[0]]) if (on_faulty[cmp[0]].count(l) != on_faulty[cmp[a]].count(l)) { only = l; break; }
+		V.viol("split-timeout", ph, "honest parties decided differently whether a message of a deviating party arrived in time", J().kv("party_a", (long long)cmp[0]).kv("party_b", (long long)cmp[a]).kv("timeouts_a", (long long)on_faulty[cmp[0]].size()).kv("timeouts_b", (long long)on_faulty[cmp[a]].size()).kv("differing_line", only));
+		return true;
+	}
+	// (a) time-outs between honest parties
+	for (size_t i = 0; i < sc.n; i++) {
+		if (honest_from[i] < 0) continue;
+		if (3 * sc.t >= sc.n) {
+			// the reliable broadcast is operated beyond its own bound t < n/3 (it then needs the ready message of every
+			// party): a party that waits on its private links stalls it.  Documented resilience limit: recorded, not judged.
+			count(std::string("stall_beyond_rbc_bound.") + PNAME[sc.proto]); V.beyond_bound_stall = true; return true;
+		}
+		long rq = 0; for (auto q : P) if (q->aiou2) rq += q->aiou2->rreq[ph];
+		V.viol("honest-timeout", ph, "an honest party ran into a time-out waiting for a message of another honest party although every link delivers within 3 s", J().kv("party", (long long)i).kv("waiting_for", honest_from[i]).kv("log_line", honest_line[i]).kv("r_requests_sent_in_phase", rq));
+		return true;
+	}
+	return false;
 }
 
 // state of the honest parties after a joint sharing / key generation phase
@@ -258,7 +283,7 @@ static void check_joint(Verdicts &V, const Group &G, std::vector<Party *> &P, in
 	const Scen &sc = V.sc; size_t n = sc.n;
 	std::vector<size_t> H; for (size_t i = 0; i < n; i++) if (!sc.faulty(i)) H.push_back(i);
 	R.H = H;
-	if (scan_honest_timeouts(V, P, ph)) return;     // root cause reported; the state that follows from it is not judged again
+	if (scan_timeouts(V, P, ph)) return;     // root cause reported; the state that follows from it is not judged again
 	// 0. every honest party finished and reports success
 	bool all_ok = true;
 	for (size_t i : H) {
@@ -343,7 +368,7 @@ static void check_pvss(Verdicts &V, const Group &G, std::vector<Party *> &P) {
 	std::vector<size_t> H, Rcv; for (size_t i = 0; i < n; i++) if (!sc.faulty(i)) { H.push_back(i); if (i != d) Rcv.push_back(i); }
 	for (size_t i : H) { Snap &s = P[i]->snap[0]; if (s.threw) { V.viol("exception", 0, "honest party's Share threw " + s.exc, J().kv("party", (long long)i)); return; } if (!s.called) return; }
 	if (Rcv.empty()) return;
-	if (scan_honest_timeouts(V, P, 0) || scan_honest_timeouts(V, P, 1)) return;
+	if (scan_timeouts(V, P, 0) || scan_timeouts(V, P, 1)) return;
 	// verdict on the dealer: equal at all honest receivers
 	bool v0 = P[Rcv[0]]->snap[0].ret;
 	for (size_t i : Rcv) { V.evals++; if (P[i]->snap[0].ret != v0) { V.viol("dealer-verdict-disagree", 0, "honest receivers disagree whether the dealer is qualified", J().kv("party_a", (long long)Rcv[0]).kv("ret_a", v0).kv("party_b", (long long)i).kv("ret_b", P[i]->snap[0].ret)); return; } }
@@ -440,6 +465,7 @@ static Dev make_dev(int kind, const Scen &sc, size_t f, Rng &r) {
 		d.phase = (sc.proto == P_CDKG) ? (int)r.below(2) : 0;
 		d.victim = honest[r.below(honest.size())];
 		d.k = (long)((sc.proto == P_PVSS) ? t + 3 : ((sc.proto == P_RVSS || sc.proto == P_ZVSS) ? sc.tp + 4 : t + 4)); break; }
+	case D_SHIFT: d.phase = (sc.proto == P_CDKG) ? 1 : 0; break;
 	case D_BC_ALTER: {
 		d.phase = (np == 2) ? (int)r.below(2) : 0;
 		if (sc.proto == P_PVSS && !dealer) d.phase = 1;   // receivers: a wrong share during reconstruction
@@ -451,6 +477,7 @@ static Dev make_dev(int kind, const Scen &sc, size_t f, Rng &r) {
 
 static std::vector<int> kinds_for(int proto, bool dealer) {
 	if (proto == P_PVSS) return dealer ? std::vector<int>{D_BUILTIN, D_WRONG_SHARE, D_SILENT, D_BC_ALTER, D_BAD_REVEAL} : std::vector<int>{D_BUILTIN, D_FALSE_COMPLAINT, D_SILENT, D_BC_ALTER};
+	if (proto == P_ZVSS || proto == P_CDKG) return {D_BUILTIN, D_WRONG_SHARE, D_FALSE_COMPLAINT, D_SILENT, D_BC_ALTER, D_BAD_REVEAL, D_SHIFT};
 	return {D_BUILTIN, D_WRONG_SHARE, D_FALSE_COMPLAINT, D_SILENT, D_BC_ALTER, D_BAD_REVEAL};
 }
 
@@ -473,7 +500,7 @@ static void build_list(std::vector<Scen> &L) {
 		} else for (size_t n = 2; n <= 7; n++) for (size_t t = 0; 2 * t < n; t++) nts.push_back({n, t});
 		int mode0 = (int)r.below(4);
 		for (size_t a = 0; a < nts.size(); a++) {
-			int reps = quick ? 1 : (nts[a].first <= 5 ? 4 : 2);
+			int reps = quick ? 1 : (nts[a].first <= 5 ? 12 : 6);
 			for (int rep = 0; rep < reps; rep++) { Scen sc = base(p, nts[a].first, nts[a].second); set_net(sc, (mode0 + (int)a + rep) % 4, r); add(sc); }
 		}
 		if (p == P_RVSS || p == P_ZVSS) {   // polynomial degree t' above the complaint threshold t (Joint-RVSS(t,n,t'))
@@ -491,7 +518,7 @@ static void build_list(std::vector<Scen> &L) {
 				std::vector<int> use;
 				if (quick) use = {ks[(rot++) % ks.size()]}; else use = ks;
 				for (int kind : use) {
-					int reps = quick ? 1 : (kind == D_BUILTIN ? 4 : 2);
+					int reps = quick ? 1 : (kind == D_BUILTIN ? 12 : 6);
 					for (int rep = 0; rep < reps; rep++) { Scen sc = base(p, n, 1); sc.dealer = dl; sc.F = {f}; sc.devs = {make_dev(kind, sc, f, r)}; add(sc); }
 				}
 			}
@@ -506,16 +533,19 @@ static void build_list(std::vector<Scen> &L) {
 			if (v < 2) { d.k = 1; d.k2 = 1 + v; } else if (v == 2) d.k = 0;
 			sc.devs = {d}; add(sc);
 		}
+		if (p == P_ZVSS || p == P_CDKG) {   // zero sharing with a coherently shifted polynomial (constant term 1)
+			Scen sc = base(p, 4, 1); size_t f = r.below(4); sc.F = {f}; sc.devs = {make_dev(D_SHIFT, sc, f, r)}; add(sc);
+		}
 		if (p == P_PVSS) {   // a wrong share broadcast during reconstruction by the first party every other party reads from
 			Scen sc = base(p, 4, 1); sc.dealer = 3; sc.F = {0}; Dev d; d.kind = D_BC_ALTER; d.phase = 1; d.k = 1; sc.devs = {d}; add(sc);
 		}
 		// ---- the library's own switches take random branches: a few more draws
-		for (int rep = 0; rep < (quick ? 3 : 8); rep++) {
+		for (int rep = 0; rep < (quick ? 3 : 24); rep++) {
 			size_t n = 4 + r.below(2); Scen sc = base(p, n, 1); size_t f = r.below(n); if (p == P_PVSS && rep % 2 == 0) sc.dealer = f;
 			sc.F = {f}; sc.devs = {make_dev(D_BUILTIN, sc, f, r)}; add(sc);
 		}
 		// ---- n = 6, 7: sampled faulty sets (sizes 1..t)
-		int big_runs = quick ? 1 : 12;
+		int big_runs = quick ? 1 : 36;
 		for (int rep = 0; rep < big_runs; rep++) {
 			size_t n = (quick || rep % 3) ? 7 : 6, t = (n == 7) ? (rep % 4 == 3 ? 1 : 2) : 1;
 			Scen sc = base(p, n, t); size_t nf = (quick || rep % 2 == 0) ? t : 1 + r.below(t);
